@@ -122,13 +122,21 @@ func genRespSpec(r *rand.Rand, bias string, resIdx, epoch int) RespSpec {
 		pv = 0.8
 	}
 	if chance(r, pv) {
-		rs.Vary = pick(r, [][]string{{"X-A"}, {"X-B, X-A"}, {"x-a , x-b"}, {"X-A", "X-B"}, {"*"}, {"X-A, *"}, {"Accept-Encoding"}})
+		rs.Vary = pick(r, [][]string{{"X-A"}, {"X-B, X-A"}, {"x-a , x-b"}, {"X-A", "X-B"}, {"*"}, {"X-A, *"}, {"Accept-Encoding"}, {"Accept"}, {"Accept-Language, Accept-Encoding"}})
 	}
 	if chance(r, 0.15) {
 		rs.DelayS = pick(r, []float64{1, 3, 0.3})
 	}
 	if chance(r, 0.3) {
 		rs.Extra = map[string][]string{"X-Extra": {fmt.Sprintf("e%d", epoch)}}
+	}
+	if chance(r, 0.06) {
+		// the origin is itself behind a cache that marks its responses
+		if rs.Extra == nil {
+			rs.Extra = map[string][]string{}
+		}
+		rs.Extra["X-From-Cache"] = []string{"1"}
+		rs.Extra["X-Httpcache-Status"] = []string{pick(r, []string{"HIT", "STALE"})}
 	}
 	if chance(r, 0.03) {
 		rs.FailBody, rs.FailAt = true, r.IntN(8)
@@ -141,6 +149,8 @@ func genRespSpec(r *rand.Rand, bias string, resIdx, epoch int) RespSpec {
 	}
 	return rs
 }
+
+var oddListValues = []string{"*/*;q", "text/plain;a", "text/html;q=", ";q=1", "a;;b", "gzip;q", ",", ";", "a;q=abc", "a;q=1;q=0", "a; q", "q=", "=", "a;b;c;d;e;f", "*;q=0.5, *", "\"", "a;q=\"1\"", " ", "a,,b", "a;q=0.0001", "a;q=2", "a;q=-1", "x;" , "x;y=", "x ; q = 0.5"}
 
 var fuzzReqCC = []string{"no-cache", "max-age=0", "max-age=5", "max-age=100", "max-stale", "max-stale=5", "min-fresh=3", "only-if-cached", "no-store", "only-if-cached, max-stale", "no-cache, only-if-cached", "stale-if-error=30", "max-age=5, max-stale=10"}
 
@@ -253,6 +263,10 @@ func genFuzzCase(r *rand.Rand, bias string) FuzzCase {
 		}
 		if chance(r, 0.15) {
 			h["Accept-Encoding"] = []string{pick(r, []string{"gzip", "gzip, br", "br,gzip", "x-gzip", "identity"})}
+		}
+		if chance(r, 0.12) {
+			// unusual but sendable media-range / coding lists
+			h[pick(r, []string{"Accept", "Accept-Encoding", "Accept-Language"})] = []string{pick(r, oddListValues)}
 		}
 		if chance(r, 0.03) {
 			h["Range"] = []string{"bytes=0-3"}
